@@ -102,7 +102,12 @@ var properties = []Property{
 		Rules:     []string{"PURE.eval", "PURE.global", "PURE.nogo"},
 		Technique: "interprocedural effect analysis with a freshness (ownership) fixpoint over the call graph",
 	},
-	 {ID: "C20"},
+	 
+	{ID: "C20", Title: "Variants hold what they were given: typed access, copies and equality",
+		Rules:     []string{"OWN.tagtype", "OWN.hosttype", "OWN.array", "OWN.equals", "PANIC.ifacecmp", "PANIC.assert", "PURE.global"},
+		Technique: "writer/reader table agreement (tag ↔ payload Go type ↔ accessor assertion), host-type switch extraction, slice-ownership dataflow",
+	},
+	
 }
 
 func init() {
